@@ -535,7 +535,8 @@ class CooperativeTask:
                 self.pause()
 
                 def failLater(failure: Failure) -> None:
-                    self._completeWith(TaskFailed(), failure)
+                    if self._completionState is None:
+                        self._completeWith(TaskFailed(), failure)
 
                 result.addCallbacks(lambda result: self.resume(), failLater)
 
